@@ -374,6 +374,25 @@ def run_shard(sh):
                 bad('failed-send-wrote', ['send:bin_update-malformed'], 'malformed bin_update %s answered %s and wrote %d frames' % (post, str(jb)[:100], len(new)), rep)
         if not (isinstance(jb, dict) and jb.get('status') is True) and len(tr.written) != n0:
             bad('failed-send-wrote', ['kind:' + kind], 'a %s request answered %s but wrote %d frame(s)' % (kind, str(jb)[:100], len(tr.written) - n0), rep)
+        if kind in ('update', 'bin', 'rr') and isinstance(jb, dict) and jb.get('status') is True and rng.random() < 0.25:
+            # the session ends right after a successful send: the very next request (same instant) must be refused and written nowhere
+            how = rng.choice(['peer-close', 'cease', 'bad-marker'])
+            if how == 'peer-close':
+                w.peer_close(tr, clean=True)
+            elif how == 'cease':
+                w.deliver(S.MSGS['NOTI_CEASE'][0], tr)
+            else:
+                w.deliver(S.MSGS['BADMARK'][0], tr)
+            nw = sum(len(t.written) for t in w.transports())
+            for path_, body_ in (('send/update', BODIES['send/update']), ('send/route-refresh', {'afi': 1, 'safi': 1, 'res': 0}),
+                                 ('send/bin_update', {'binary_data': S.UPD_ROUTE.hex()})):
+                code2, jb2 = w.rest('POST', path_, json_body=body_)
+                res['counters']['gate_refusals'] += 1
+                if (isinstance(jb2, dict) and jb2.get('status') is True) or sum(len(t.written) for t in w.transports()) != nw:
+                    bad('send-outside-established', ['rule:' + path_, 'state:just-dropped', 'how:' + how],
+                        '%s right after the session ended (%s, state %s): answered %s %s, bytes written: %d' % (
+                            path_, how, w.state_direct(), code2, str(jb2)[:80], sum(len(t.written) for t in w.transports()) - nw), dict(rep, then=path_, how=how))
+                    break
         if sum(len(t.written) for t in w.transports() if t is not tr) != others0:
             bad('send-wrote-elsewhere', [], 'a send wrote to a connection other than the current one', rep)
     res['violations'] = list(V.values())
